@@ -635,6 +635,10 @@ pub fn p384_public_of_scalar(scalar: &[u8]) -> Option<Vec<u8>> {
     p384_public_from_scalar(scalar).map(|(_, c)| c)
 }
 
+pub fn p384_uncompressed_of_scalar(scalar: &[u8]) -> Option<Vec<u8>> {
+    p384_public_from_scalar(scalar).map(|(u, _)| u)
+}
+
 pub fn x25519_base(esk: &[u8; 32]) -> Option<[u8; 32]> {
     libsodium_rs::crypto_scalarmult::curve25519::scalarmult_base(&clamp(*esk)).ok()
 }
